@@ -959,6 +959,30 @@ def conc_correspondence(ctx, harness_cmd, driver_cmd, runs, judge=None, label="t
     return len(bad_prop) + len(only_model)
 
 
+def tie_a_generated(ctx):
+    """Tie A for the pure integer code: lib/c2lean.py translates next_pow_of_2 and the bit / ring /
+    endian macros from REPO's C text; the result must equal the committed
+    lean/MgModel/Generated/Bits.lean, which lean/MgProof/Tie/Bits.lean proves equal to the
+    hand-written models. Unsupported syntax in a translated function also counts as a broken tie."""
+    r = subprocess.run([sys.executable, os.path.join(VERIF, "lib", "c2lean.py"), REPO],
+                       stdout=subprocess.PIPE, stderr=subprocess.PIPE, text=True)
+    committed = open(os.path.join(LEAN, "MgModel", "Generated", "Bits.lean")).read()
+    ok = r.returncode == 0 and r.stdout == committed
+    ctx.cov["ties"]["tieA_generated_bits"] = {"regenerated_equal_to_committed": ok}
+    ctx.cov["obligations"] += 1
+    if ok:
+        ctx.cov["discharged"] += 1
+    else:
+        what = r.stderr.strip()[-300:] if r.returncode else "generated text differs"
+        if r.returncode == 0:
+            a, b = committed.split("\n"), r.stdout.split("\n")
+            k = next((i for i in range(min(len(a), len(b))) if a[i] != b[i]), min(len(a), len(b)))
+            what += ": committed %r / regenerated %r" % (a[k][:120] if k < len(a) else "", b[k][:120] if k < len(b) else "")
+        ctx.broken.append("tieA: lib/c2lean.py on the repository's C text no longer yields "
+                          "lean/MgModel/Generated/Bits.lean (%s)" % what)
+    return ok
+
+
 def atomic_sites(repo_rel, function=None):
     """Static inventory (tie A) of the __atomic builtins in a source file of /repo, after
     preprocessing: list of (builtin, [args]) in source order, optionally restricted to the
